@@ -256,6 +256,12 @@ def weight(job):
     return {'rank': 9, 'norm': 8, 'transform': 5}.get(job[0], 1) * job[1][0] * job[1][1]
 
 
+
+# heavy shards are split into disjoint parts of their path tree (run in parallel; together exactly the unsplit exploration)
+def slices(job, tier):
+    h, a = job
+    return 3 if h in ('rank', 'axis_independent', 'transform', 'norm') and a[0] * a[1] >= 6 else 1
+
 OPTS = {'quick': {'time_budget': 60}, 'thorough': {'time_budget': 900}}
 
 META = {
